@@ -646,37 +646,6 @@ func (p *Parser) parseSimpleExpression() (Node, error) {
 		if token.Value == "(" {
 			p.tokenIndex++ // Skip "("
 
-			// Check for unary operator immediately after opening parenthesis
-			if p.tokenIndex < len(p.tokens) &&
-				p.tokens[p.tokenIndex].Type == TOKEN_OPERATOR &&
-				(p.tokens[p.tokenIndex].Value == "-" || p.tokens[p.tokenIndex].Value == "+") {
-
-				// Handle unary operation inside parentheses
-				unaryToken := p.tokens[p.tokenIndex]
-				operator := unaryToken.Value
-				line := unaryToken.Line
-				p.tokenIndex++ // Skip the operator
-
-				// Parse the operand
-				operand, err := p.parseExpression()
-				if err != nil {
-					return nil, err
-				}
-
-				// Create a unary node
-				expr := NewUnaryNode(operator, operand, line)
-
-				// Expect closing parenthesis
-				if p.tokenIndex >= len(p.tokens) ||
-					p.tokens[p.tokenIndex].Type != TOKEN_PUNCTUATION ||
-					p.tokens[p.tokenIndex].Value != ")" {
-					return nil, fmt.Errorf("expected closing parenthesis at line %d", token.Line)
-				}
-				p.tokenIndex++ // Skip ")"
-
-				return expr, nil
-			}
-
 			// Regular parenthesized expression
 			expr, err := p.parseExpression()
 			if err != nil {
